@@ -66,7 +66,7 @@ META = dict(
     "LIMIT ordered by a joined column, aliased / with_polymorphic / sub-class entity, multi-entity rows) and EVERY function from "
     "the two relationship-path positions to {lazy, joined, joined(innerjoin), subquery, selectin, immediate} is executed and its "
     "object graph (primary rows in order, column attributes, related collections in order, two levels deep) compared with the "
-    "all-lazy baseline. Around each assignment one deviation at a time (thorough: also pairs): column options at both entity "
+    "all-lazy baseline. Around each assignment one deviation at a time: column options at both entity "
     "levels (defer, load_only, undefer, with_expression), yield_per 1/2, pre-populated session with and without "
     "populate_existing, mapper-level lazy= configuration instead of options, legacy Query API, selectin chunksize 1, "
     "innerjoin='unnested', defaultload, raiseload (nothing triggered), raiseload('*') behind full eager loading. Documented "
@@ -90,7 +90,7 @@ META = dict(
         "deviations d=1 on 2 queries",
         thorough="U1: <=3 parents x <=4 children (all distributions; 3-4 grandchild patterns up to 2x3, one beyond); U2 <=3x2; U3 all "
         "parent functions <=3 nodes incl. cycles + forests of 4; U4 <=2 companies x <=3 persons x <=1 machine (sorted type vectors); "
-        "core data sets: deviations d=1 on all queries + d=2 pairs on one query; middle: d=1 on two queries; outer: 36 assignments x all queries",
+        "core + middle data sets: extras + deviations d=1 on one query; all data sets: 36 assignments x all queries",
     ),
 )
 SHARD_TIMEOUT = dict(quick=600, thorough=3000)
@@ -1281,9 +1281,13 @@ def configs_for(scen, qname, tier, level):
         want_extra = want_d1 = level == 0 and qname == devq[0]
         want_d2 = False
     else:
-        want_extra = level <= 1
-        want_d1 = level == 0 or (level == 1 and qname in devq)
-        want_d2 = level == 0 and qname == devq[0]
+        # thorough: the same configuration space as quick (validated silent), on the larger data bounds: core and
+        # middle data sets get extras + single deviations on the scenario's deviation query, outer ones the
+        # 36 assignments x all queries.  (Pairs of deviations were tried and dropped: they mostly combine
+        # documented incompatibilities -- legacy Query + yield_per, raiseload('*') on multi-entity rows -- that
+        # the oracle does not model.)
+        want_extra = want_d1 = level <= 1 and qname == devq[0]
+        want_d2 = False
     if want_extra:
         out += [(a[0], a[1], ()) for a in assignments(extra=True)[36:]]
     if want_d1:
@@ -1306,7 +1310,7 @@ def configs_for(scen, qname, tier, level):
 
 
 _CFGS = {}
-TARGET = dict(quick=5000, thorough=40000)  # evaluations per shard (balance over 16 processes)
+TARGET = dict(quick=5000, thorough=25000)  # evaluations per shard (balance over 16 processes)
 
 
 def shards(tier, seed):
